@@ -18,6 +18,8 @@
 //! `CallFlowCombinator`s, so `compute()` panics on every CFG that contains an internal call.
 
 use crate::core::*;
+
+pub const KNOWN_WRAPPER_DEFAULT: &str = "c07-wrapper-default-combinator";
 use crate::prng::{hash_str, mix, Rng};
 use cwe_checker_lib::analysis::fixpoint::{Computation, Context};
 use cwe_checker_lib::analysis::backward_interprocedural_fixpoint as bwd;
@@ -1281,9 +1283,12 @@ impl<'a> WCase<'a> {
             return;
         }
         let nodes: Vec<String> = self.graph.node_indices().map(|n| format!("{}:{}", n.index(), self.graph[n])).collect();
+        // Known-finding discriminator: the case is in the dedicated sub-workload "default value given AND the
+        // graph contains CallReturn/CallSource combinator nodes" and the solver call panicked (see DESIGN.md §11.4).
+        let known = if what == "default-with-combinator-nodes:panic" { Some(KNOWN_WRAPPER_DEFAULT) } else { None };
         rep.violation(
             format!("{}:{what}", self.dir.name()),
-            None,
+            known,
             format!(
                 "{}, order {order}, start values {:?}, default {:?}: {detail}; reference least solution = {}; nodes = {nodes:?}",
                 self.dir.name(),
